@@ -144,6 +144,31 @@ Definition unknown_nested_any_statement : Prop :=
     (length b + depth_ty t + 2 <= fuel)%nat -> (length b' + depth_ty t + 2 <= fuel)%nat ->
     exists r, Unmarshal fuel t b (zero_val t) = Ok r /\ Unmarshal fuel t b' (zero_val t) = Ok r.
 
+(* any number of insertions, one after the other, anywhere: every intermediate byte string within the bounds *)
+Definition okb (fuel : nat) (t : gty) (b : bytes) : Prop :=
+  wfb b = true /\ len b < lim /\ (length b + depth_ty t + 2 <= fuel)%nat.
+Inductive widened_many (fuel : nat) (t : gty) : bytes -> bytes -> Prop :=
+| WM_refl b : widened_many fuel t b b
+| WM_step b b' b'' : widened_many fuel t b b' -> widened t b' b'' -> okb fuel t b'' -> widened_many fuel t b b''.
+Definition unknown_nested_many_statement : Prop :=
+  forall t b b' old fuel,
+    type_ok t = true -> numbers_ok (codec_of t) = true -> okb fuel t b -> widened_many fuel t b b' ->
+    b <> [] \/ old = zero_val t ->
+    exists r, Unmarshal fuel t b old = Ok r /\ Unmarshal fuel t b' old = Ok r.
+
+(* the vocabulary is not vacuous: canonical encodings are fields *)
+Definition canonical_fields_statement : Prop :=
+  (forall x, 0 <= x < 2 ^ 64 -> varint_of (varint x) x) /\
+  (forall num wt p, 0 <= num < 2 ^ 61 -> payload_of wt p -> is_field num wt (varint (num * 8 + wt) ++ p)) /\
+  (forall x, 0 <= x < 2 ^ 64 -> payload_of proto_varint (varint x)) /\
+  (forall s, len s < 2 ^ 64 -> payload_of proto_varlen (varint (len s) ++ s)).
+
 (* ---------- the field scanner agrees on what a field boundary is ---------- *)
-(* (stated in Proto/UnknownProofs.v against Proto/ScanModel.v: Scan accepts b exactly when b is a sequence of
-   complete fields) *)
+(* proto.Scan (model: Proto/ScanModel.v over Parse of Proto/RewriteModel.v) walks a byte string to its end without
+   error exactly when it is a sequence of complete fields: every point at which Scan stands between two callbacks is
+   a field boundary for the theorems above, and every field boundary is such a point *)
+From Verif Require Proto.RewriteModel Proto.ScanModel.
+Definition scan_boundary_statement : Prop :=
+  forall b l, wfb b = true -> len b < 2 ^ 62 -> ScanModel.Scan b = RewriteModel.ROk l -> fields_seq b.
+Definition scan_accepts_fields_statement : Prop :=
+  forall b, wfb b = true -> len b < 2 ^ 62 -> fields_seq b -> exists l, ScanModel.Scan b = RewriteModel.ROk l.
